@@ -45,7 +45,9 @@ func TestVerifC06Exporter(t *testing.T) {
 				opts = append(opts, opt{"cap" + map[bool]string{false: "0", true: "1"}[m], WithCapabilities(consumer.Capabilities{MutatesData: m})})
 			}
 			batching := false
-			switch rnd.IntN(4) {
+			// the helper's rule (base_exporter.go): batching <=> the legacy batcher is ENABLED or an ENABLED queue configuration
+			// has a batch section (a disabled queue configuration is dropped by WithQueueBatch)
+			switch rnd.IntN(7) {
 			case 0:
 				q := NewDefaultQueueConfig()
 				q.Batch = &BatchConfig{FlushTimeout: time.Hour, MinSize: 100, MaxSize: 0}
@@ -55,9 +57,25 @@ func TestVerifC06Exporter(t *testing.T) {
 			case 1:
 				b := NewDefaultBatcherConfig()
 				opts = append(opts, opt{"batcher", WithBatcher(b)})
-				batching = true
+				batching = b.Enabled
 			case 2:
 				opts = append(opts, opt{"queue", WithQueue(NewDefaultQueueConfig())})
+			case 3:
+				q := NewDefaultQueueConfig()
+				q.Enabled = false
+				q.Batch = &BatchConfig{FlushTimeout: time.Hour, MinSize: 100, MaxSize: 0}
+				q.Sizer = RequestSizerTypeItems
+				// WithQueueBatch ignores a disabled queue configuration altogether: nothing batches, nothing mutates
+				opts = append(opts, opt{"queueoff+batch", WithQueue(q)})
+			case 4:
+				b := NewDefaultBatcherConfig()
+				b.Enabled = false
+				opts = append(opts, opt{"batcheroff", WithBatcher(b)})
+			case 5:
+				b := NewDefaultBatcherConfig()
+				b.Enabled = true
+				opts = append(opts, opt{"batcher+queue", WithBatcher(b)}, opt{"queue", WithQueue(NewDefaultQueueConfig())})
+				batching = true
 			}
 			if rnd.IntN(2) == 0 {
 				opts = append(opts, opt{"timeout", WithTimeout(TimeoutConfig{Timeout: time.Second})})
